@@ -1,0 +1,15 @@
+//go:build verif
+
+package thriftudp
+
+import "github.com/uber-go/tally/v4/thirdparty/github.com/apache/thrift/lib/go/thrift"
+
+// VerifTransports exposes the underlying transports of a multi transport.
+func VerifTransports(p *TMultiUDPTransport) []thrift.TTransport {
+	return p.transports
+}
+
+// VerifBufLen exposes the number of bytes buffered since the last Flush.
+func VerifBufLen(p *TUDPTransport) int {
+	return p.writeBuf.Len()
+}
